@@ -212,6 +212,13 @@ def make_parsers(schema):
     p.replace_plugin(plugins.OperatorsPlugin(And="&", Or="\\|", AndNot="&!", AndMaybe="&~", Not="-"))
     P["symbol-operators"] = (p, dict(group="and", default=["t"], ops=SYMBOL_OPS, negatives=False))
     P["variations"] = (QueryParser("ts", schema, termclass=query.Variations), None)
+    P["bare"] = (QueryParser("t", schema, plugins=[]), None)
+    p = QueryParser("t", schema)
+    p.remove_plugin_class(plugins.FieldsPlugin)
+    p.remove_plugin_class(plugins.OperatorsPlugin)
+    p.remove_plugin_class(plugins.EveryPlugin)
+    P["no-fields-no-operators"] = (p, None)
+    P["dismax-tiebreak-and"] = (DisMaxParser({"t": 1.0, "k": 2.0, "n": 1.0}, schema, tiebreak=0.3), None)
     P["noschema"] = (QueryParser("t", None), None)
     return P
 
@@ -235,7 +242,12 @@ NUMS = ["0", "1", "2", "-3", "1.5", "-0.5", "1e3", "1e400", "-1e400", "nan", "in
 DATES = ["2020", "202001", "20200103", "2020-01-03", "2020-01-03 10:00", "2020010310", "20200103101530",
          "20200103101530123456", "20201301", "20200230", "0000", "9999", "99999999", "today", "yesterday", "tomorrow",
          "now", "jan 5", "5 jan 2020", "last tuesday", "next week", "-2d", "+1mo", "3am", "12:30pm", "midnight",
-         "feb 30", "2020 to 2021", "'jan 5 2020'", "'last year'"]
+         "feb 30", "2020 to 2021", "'jan 5 2020'", "'last year'", "5pm tomorrow", "jan 5 to feb 10", "2005 sept 12th",
+         "4:46 am oct 31 2010", "-1y6mo to +2 yrs 23d", "now to +2h", "noon", "last year", "next friday", "0000-00-00",
+         "31 feb", "feb 29 2021", "feb 29 2020", "13/13/2013", "25:61", "12am", "0am", "13pm", "12:60", "june 31",
+         "-1000y", "+9999y", "+99999999d", "-1 week to now", "last tuesday to today", "1st", "32nd", "sept", "mar 0",
+         "00:00:00.000001", "23:59:59.999999", "24:00", "d:'feb 29 2021'", "d:[feb 29 2021 to mar 1]", "d:[to]",
+         "d:['-1000y' to '+1000y']", "d:>'31 feb'", "d:yesterday to", "d:to tomorrow", "d:last", "d:next"]
 BOOSTS = ["^2", "^0.5", "^", "^.5", "^2.", "^-1", "^1e3", "^2^3", "^0", "^99999999999999999999"]
 FUZZ = ["~", "~2", "~3", "~4", "~2/3", "~/3", "~2/9", "~0", "~1/0", "~/", "~2/", "~1/1", "~/99"]
 RANGES = ["[a TO b]", "{a TO b}", "[a TO b}", "[TO b]", "[a TO]", "[TO]", "{TO}", "[ TO ]", "[a to b]", "[aTOb]",
@@ -321,12 +333,25 @@ def soup_case(ctx, rng, W):
     from whoosh.qparser import QueryParserError
     text, classes = gen_soup(rng, W)
     ctx.count("soup.strings")
+    # parse() documents that a byte string is decoded as latin-1
+    as_bytes = False
+    if rng.random() < 0.04:
+        try:
+            text.encode("latin1")
+            as_bytes = True
+            ctx.count("soup.bytes_input")
+        except UnicodeError:
+            pass
     s = W.searcher
     for name, (parser, _prof) in W.parsers.items():
         ctx.count("soup.parses")
         wit = {"config": name, "text": text}
+        arg = text
+        if as_bytes:
+            arg = text.encode("latin1")
+            wit["as_latin1_bytes"] = True
         try:
-            q = parser.parse(text)
+            q = parser.parse(arg)
         except QueryParserError:
             ctx.count("soup.parser_errors")
             continue
@@ -351,7 +376,7 @@ def soup_case(ctx, rng, W):
         wit = dict(wit, query=repr(q)[:300])
         if name in NO_SEARCH:
             continue
-        for how in ("all", "top3", "docs", "multiseg-all", "multiseg-top3"):
+        for how in ("all", "top3", "multiseg-all", "multiseg-top3"):
             ctx.count("soup.searches")
             try:
                 if how == "all":
@@ -459,10 +484,10 @@ def gen_leaf(rng, prof, st):
             pat = w[0] + "?" + "*"
         return ("wild", fld, pat)
     if r < 0.74:
-        key = fld or "DEFAULT"
-        if key in st["rangefields"] and not st.get("popB"):
+        keys = set(prof["default"]) if fld is None else {prof.get("alias", {}).get(fld, fld)}
+        if (keys & st["rangefields"]) and not st.get("popB"):
             return ("term", fld, rng.choice(vocab))
-        st["rangefields"].add(key)
+        st["rangefields"].update(keys)
         a, b = sorted([rng.choice(vocab), rng.choice(vocab)])
         if rng.random() < 0.3:
             a = a[:rng.randint(1, len(a))]
@@ -1040,14 +1065,45 @@ def shrink(W, name, tree, budget=300):
     return cur, best
 
 
+def range_fields(t, prof, fctx=None):
+    """Effective (real) field of every range leaf, following enclosing field groups, aliases and multi-field defaults."""
+    k = t[0]
+    alias = prof.get("alias", {})
+    if k == "range":
+        if t[1] is not None:
+            return [alias.get(t[1], t[1])]
+        return [fctx] if fctx is not None else list(prof["default"])
+    if k in ("nrange", "gtlt"):
+        return [t[1]]
+    if k == "drange":
+        return ["d"]
+    if k == "fgroup":
+        return range_fields(t[2], prof, alias.get(t[1], t[1]))
+    out = []
+    for x in t[1:]:
+        if isinstance(x, tuple) and x and isinstance(x[0], str) and x[0] in _KINDS:
+            out += range_fields(x, prof, fctx)
+        elif isinstance(x, tuple):
+            for y in x:
+                if isinstance(y, tuple) and y and isinstance(y[0], str) and y[0] in _KINDS:
+                    out += range_fields(y, prof, fctx)
+    return out
+
+
 def lang_case(ctx, rng, W):
     names = [n for n, (_p, prof) in W.parsers.items() if prof and not prof.get("simple")]
     name = rng.choice(names)
     parser, prof = W.parsers[name]
     popB = rng.random() < 0.06
-    st = {"rangefields": set(), "popB": popB}
     depth = rng.choice([1, 1, 2, 2, 2, 3, 3, 4])
-    tree = gen_tree(rng, prof, depth, st)
+    for _attempt in range(20):
+        st = {"rangefields": set(), "popB": popB}
+        tree = gen_tree(rng, prof, depth, st)
+        rf = range_fields(tree, prof)
+        if popB or len(rf) == len(set(rf)):
+            break       # population A: at most one range per effective field (see ASSUMPTIONS)
+    else:
+        tree = ("term", None, "alfa")
     ctx.count("lang.cases")
     ctx.count("lang.popB" if popB else "lang.popA")
     ctx.count("lang.config." + name)
